@@ -248,6 +248,11 @@ theorem reshape_units (a : ND K) {o o' u i' x : List ℕ} (hs : a.shape = o ++ u
 theorem reshape_refuses (a : ND K) {s : List ℕ} (h : sz s ≠ sz a.shape) :
     a.reshape s = .error "ValueError" := by simp [reshape, h]
 
+/-- row-major order made concrete: in a 2×3 composite, unit `[1,2]` is unit number 5 of the
+flattened object and vice versa (hypotheses of the structural theorems are satisfiable) -/
+example : Valid [2, 3] [1, 2] ∧ flatIx [2, 3] [1, 2] = 5 ∧ unravel [2, 3] 5 = [1, 2] ∧ sz [2, 3] = sz [6] := by
+  decide
+
 /-- `obj[k]` / `obj[k₀, k₁, …]`: the units of the indexed object are the units behind the index -/
 theorem getItem_units (a : ND K) {s t idx x : List ℕ} (hs : a.shape = s ++ t)
     (hidx : idx.length = s.length) (hx : Valid t x) :
